@@ -1,4 +1,4 @@
-"""Regression corpus: the minimal programs that demonstrated the repaired defects F1..F9 (corpus/findings/*.cpp).
+"""Regression corpus: the minimal programs that demonstrated the repaired defects F1..F10 (corpus/findings/*.cpp).
 Each is built against /repo's current headers and run first by the check of every property it belongs to;
 exit 0 = the defect is absent.  A defect that returns is reported with the program as the replay."""
 import os
@@ -16,6 +16,7 @@ CORPUS = {
     "f7_switch_combo.cpp": (("C19", "C12"), []),
     "f8_taskstatus_alignment.cpp": (("C18",), UBSAN),
     "f9_plan_first_last.cpp": (("C10",), []),
+    "f10_const_control_plan.cpp": (("C10", "C06"), []),
 }
 
 
